@@ -121,7 +121,56 @@ func runC08(c *Ctx) {
 		if len(find("raw")) > 0 {
 			bad = "writes bytes that are not one of the punctuation tokens"
 		}
-		if len(opens) != 1 || len(closes) != 1 || len(commas) != 1 || len(values) != 1 {
+		peeled := false
+		if len(opens) == 1 && len(closes) == 1 && len(commas) == 1 && len(values) == 2 && bad == "" {
+			// peeled form: `if len(a) > 0 { a[0].MarshalGQL(w); for _, v := range a[1:] { w.Write(comma); v.MarshalGQL(w) } }`
+			v0, vIn := values[0].in, values[1].in
+			if an.CanReach(v0, v0) {
+				v0, vIn = vIn, v0
+			}
+			cm := commas[0].in
+			hasTail := false
+			for _, b := range fn.Blocks {
+				for _, in := range b.Instrs {
+					if sl, ok := in.(*ssa.Slice); ok && sl.Low != nil {
+						if k, isC := an.ConstInt(sl.Low); isC && k == 1 {
+							hasTail = true
+						}
+					}
+				}
+			}
+			nonEmpty := false
+			for _, f := range an.Facts(v0) {
+				if n, isC := an.ConstInt(f.Y); isC && n == 0 && (f.Op == token.GTR || f.Op == token.NEQ) {
+					nonEmpty = true
+				}
+			}
+			switch {
+			case an.CanReach(v0, v0) || !an.CanReach(vIn, vIn):
+				bad = "two element writes that are not (first element, loop over the rest)"
+			case !hasTail || !nonEmpty:
+				bad = "the first element is written separately but the loop does not start at the second element (or the list may be empty there)"
+			case !an.Before(cm, vIn) || !an.CanReach(cm, cm):
+				bad = "in the loop over the remaining elements the comma does not precede every element"
+			case !an.Before(opens[0].in, v0) || !an.CanReach(v0, cm):
+				bad = "the first element is not written between the opening token and the first comma"
+			default:
+				peeled = true
+				for _, r := range an.Returns(fn) {
+					if !an.Before(closes[0].in, r) {
+						bad = "a return is reachable without writing the closing token"
+					}
+				}
+				for _, w := range ws {
+					if w.in != closes[0].in && an.CanReach(closes[0].in, w.in) {
+						bad = "a write at " + c.ipos(w.in) + " can follow the closing token"
+					}
+				}
+			}
+		}
+		if peeled || bad != "" && len(values) == 2 {
+			// decided above
+		} else if len(opens) != 1 || len(closes) != 1 || len(commas) != 1 || len(values) != 1 {
 			bad = sprintf("expected exactly one open, close, comma and element write, found %d/%d/%d/%d", len(opens), len(closes), len(commas), len(values))
 		} else {
 			o, cl, cm, v := opens[0].in, closes[0].in, commas[0].in, values[0].in
